@@ -84,7 +84,7 @@ def registry():
                      'receiver classes by class-hierarchy analysis on method names (no type checker available)',
                      'Function.pullback dispatch expression as extracted by tracer_proto.dispatch_shape'])
     reg['C06'] = dict(
-        rules=[T.rule_pb_ro, T.rule_sweep_init, T.rule_sweep_balance, T.rule_setitem_copy, T.rule_setitem_order, T.rule_x_writers, T.rule_drv_fresh, T.rule_seed_copy, T.rule_global, T.rule_doc, T.rule_pb_propagate, T.rule_graph_capture] + ([A.rule_class_state, A.rule_memo_key, A.rule_rec_unwrap, A.rule_uninit] if A is not None else []) + ([G.rule_out_defined] if G is not None else []),
+        rules=[T.rule_pb_ro, T.rule_sweep_init, T.rule_sweep_balance, T.rule_setitem_copy, T.rule_setitem_order, T.rule_x_writers, T.rule_drv_fresh, T.rule_seed_copy, T.rule_global, T.rule_doc, T.rule_pb_propagate, T.rule_graph_capture] + ([A.rule_class_state, A.rule_memo_key, A.rule_rec_unwrap, A.rule_uninit, A.rule_uninit_kernels] if A is not None else []) + ([G.rule_out_defined] if G is not None else []),
         explanation='Static decision of the state discipline that makes results a function of the call\'s arguments only. '
                     'Decides: pullbacks never write forward values or incoming adjoints (R-pb-ro, E1 effects); adjoints are '
                     're-initialised unconditionally for every node before every sweep and xbar_from_x ignores the previous xbar '
